@@ -460,9 +460,22 @@ def drag_case(ctx, alg, cfg, name, i):
     if root_form:
         # the documented animation style: one root callable returning the whole scene
         inner_subjects = subjects
+        root_calls = []
+        oracle_call = [False]
 
         def scene_func():
-            return inner_subjects
+            # dependent geometry computed inside the root function itself (not wrapped in a callable): it is up to date only if the
+            # root function is called again after every drag / update request
+            if not oracle_call[0]:
+                root_calls.append(1)
+            return list(inner_subjects) + [0x00AA55, [points[0] * (clock[0] + 1.0) + points[-1]]]
+
+        def current_scene():
+            oracle_call[0] = True
+            try:
+                return scene_func()
+            finally:
+                oracle_call[0] = False
         ctx.count('root_callable_drag_histories')
         st, w = ctx.guarded(30, lambda: alg.graph(scene_func))
     else:
@@ -491,6 +504,7 @@ def drag_case(ctx, alg, cfg, name, i):
         # what the front end sends: full canonical coefficient list per dragged point; untouched blades keep the decoded value
         news = []
         moved_any = False
+        really_moved = False
         for pi, p in enumerate(points):
             cur = dict(zip(p.keys(), [float(x) for x in (p.values().tolist() if hasattr(p.values(), 'tolist') else p.values())]))
             full = [cur.get(k, 0.0) for k in canon]
@@ -499,11 +513,15 @@ def drag_case(ctx, alg, cfg, name, i):
                 ctx.count('points_reported_unmoved')
             else:
                 moved_any = True
+            base = list(full)
             for j in ([] if stay else rng.sample(range(n), rng.randint(1, min(3, n)))):
                 if canon[j] in cur:
                     full[j] = rng.randint(-20, 20) / 4.0
+            if full != base:
+                really_moved = True
             news.append({'mv': full})
         ncalls = len(dep_calls)
+        nroot = len(root_calls) if root_form else 0
         st, out = ctx.guarded(30, lambda: setattr(w, 'draggable_points', news))
         if st != 'ok':
             if st == 'exc':
@@ -511,6 +529,14 @@ def drag_case(ctx, alg, cfg, name, i):
             return
         ctx.count('drag_updates')
         probs = []
+        # re-evaluation is owed only when some reported coefficient really differs from the current one (otherwise nothing moved);
+        # counted here, before the oracle below evaluates the same callables itself
+        if really_moved:
+            ctx.count('drag_updates_with_a_moved_coefficient')
+            if len(dep_calls) == ncalls:
+                probs.append(['dependent callable was not re-evaluated'])
+            if root_form and len(root_calls) == nroot:
+                probs.append(['root scene callable was not re-evaluated after the drag'])
         for p, snap, new in zip(points, before_pts, news):
             ctx.count('dragged_dense_points' if len(p) == n else 'dragged_sparse_points')
             now = snapshot_mv(p)
@@ -528,12 +554,10 @@ def drag_case(ctx, alg, cfg, name, i):
         # subjects re-encode the new state, including the dependent callable
         try:
             dec = flatten(decode(w.subjects, w.key2idx))
-            exp = expected_leaves(subjects, alg)
+            exp = expected_leaves(current_scene() if root_form else subjects, alg)
             ctx.count('dependent_callables_reencoded')
             if len(dec) != len(exp) or any(not leaves_equal(a, b) for a, b in zip(dec, exp)):
                 probs.append(['subjects after the drag do not decode to the updated state'])
-            if len(dep_calls) == ncalls:
-                probs.append(['dependent callable was not re-evaluated'])
         except DecodeError as e:
             probs.append(['subjects after drag not decodable', str(e)])
         # an update request from the front end re-evaluates the subjects (time-dependent callables advance)
@@ -544,7 +568,7 @@ def drag_case(ctx, alg, cfg, name, i):
                 w._handle_custom_msg({'type': 'update_mvs'}, [])
                 dec2 = flatten(decode(w.subjects, w.key2idx))
                 called = len(ticks) > nt
-                exp2 = expected_leaves(subjects, alg)
+                exp2 = expected_leaves(current_scene() if root_form else subjects, alg)
                 ctx.count('update_messages')
                 if not called:
                     probs.append(['update_mvs did not re-evaluate the callables'])
